@@ -1000,3 +1000,10 @@ m('C06', 'collect_target_overwritten_by_single_worker_result', 'src/core/filterm
     }""", 'C06-MUT')
 m('C01', 'eager_intermediate_unordered', 'src/par/par_filtermap_fil.rs', """        let vec = self.collect_vec();""", """        let vec: Vec<_> = self.collect_x().into_iter().collect();""", 'C01-NOSHUFFLE')
 m('C13', 'split_reservation_ignores_existing_len', 'src/par/collect_into/split_vec.rs', "Some(len) => self.reserve_maximum_concurrent_capacity(self.len() + len),", "Some(len) => self.reserve_maximum_concurrent_capacity(len),", 'C01-RESERVE')
+m('C04', 'composed_filter_keeps_upstream_rejects', 'src/par/par_filtermap_fil.rs', "let composed_filter = move |x: &O| filter1(x) && filter(x);", "let composed_filter = move |x: &O| match filter1(x) { false => true, true => filter(x) };", 'C01-CONJ')
+m('C01', 'composed_filter_is_disjunction', 'src/par/par_map_fil.rs', "let composed = move |x: &O| filter1(x) && filter(x);", "let composed = move |x: &O| filter1(x) || filter(x);", 'C01-CONJ')
+b('C01', 'composed_filter_as_if', 'src/par/par_map_fil.rs', "let composed = move |x: &O| filter1(x) && filter(x);", "let composed = move |x: &O| if filter1(x) { filter(x) } else { false };")
+b('C01', 'composed_filter_as_match', 'src/par/par_flatmap_fil.rs', "let composed = move |x: &O| filter1(x) && filter(x);", "let composed = move |x: &O| match filter1(x) { true => filter(x), false => false };")
+m('C05', 'collect_x_filters_by_retain', 'src/core/map_fil_col_x.rs', "collected.extend(chunk.map(&map).filter(&filter));", "collected.extend(chunk.map(&map));\n                collected.retain(filter);", 'C05-STAGEUSE')
+m('C03', 'reduce_terminal_rebrackets_operator', 'src/par/par_map.rs', "        map_fil_red(params, iter, map, no_filter, reduce)", "        map_fil_red(params, iter, map, no_filter, move |a, b| reduce(b, a))", 'C03-OPARG')
+b('C03', 'reduce_terminal_operator_by_name', 'src/par/par_map.rs', "        map_fil_red(params, iter, map, no_filter, reduce)", "        let operator = reduce;\n        map_fil_red(params, iter, map, no_filter, move |a, b| operator(a, b))")
